@@ -68,6 +68,10 @@ structure Cfg where
   nFutures : Nat := 0
   /-- what a thread-local destructor does: 0 nothing, 1 `x0.store(10+key)`, 2 `try_with` on the other key -/
   tlsDtor : Nat := 0
+  /-- `max_duration` was given as zero: the time budget has expired at every checkpoint boundary.  (Other values of
+  `max_duration` are time-dependent; the DSL only uses values far beyond any run, which never cut.)  `parseCfg`
+  turns it into `maxPerm := some 0`, which cuts at exactly the same places. -/
+  durZero : Bool := false
 deriving DecidableEq, Repr, Inhabited
 
 structure Prog where
@@ -164,6 +168,8 @@ def parseOp (toks : List String) : Option Op :=
   | ["park"] => some .park
   | ["unpark", t] => do some (.unpark (← t.toNat?))
   | ["spawn", t] => do some (.spawn (← t.toNat?))
+  -- the spawned closure owns Arc handle `h` until the thread starts: no difference for the model
+  | ["spawnown", t, _h] => do some (.spawn (← t.toNat?))
   | ["join", t] => do some (.join (← t.toNat?))
   | ["yield"] => some .yield
   | ["await", x, v, o] => do some (.await (← x.toNat?) (← v.toInt?) (← Ord.parse o))
@@ -221,6 +227,7 @@ def parseCfgItem (c : Cfg) (item : String) : Option Cfg :=
   | ["maxth", v] => do some { c with maxThreads := ← v.toNat? }
   | ["perm", v] => do some { c with maxPerm := ← parseOptNat v }
   | ["intv", v] => do some { c with interval := ← v.toNat? }
+  | ["dur", v] => do some { c with durZero := c.durZero || (← v.toNat?) == 0 }
   | ["explicit", v] => do some { c with explicit := (← v.toNat?) != 0 }
   | ["ty", v] => do some { c with ty := ← ATy.parse v }
   | ["x", v] => do some { c with nAtomics := ← v.toNat? }
@@ -238,7 +245,10 @@ def parseCfgItem (c : Cfg) (item : String) : Option Cfg :=
 
 def parseCfg (s : String) : Option Cfg :=
   match words s with
-  | "cfg" :: items => items.foldlM parseCfgItem {}
+  | "cfg" :: items => do
+    let c ← items.foldlM parseCfgItem {}
+    -- an expired `max_duration` ends the run wherever `max_permutations = 0` would
+    some (if c.durZero then { c with maxPerm := some 0 } else c)
   | _ => none
 
 def parseThread (s : String) : Option (List Op) :=
